@@ -53,6 +53,7 @@ deriving DecidableEq, Repr, Inhabited
 /-- DBAPI call at which an armed fault fires -/
 inductive FPoint where
   | cursor | execute | commit | rollback
+  | connect      -- the creator called by `_ConnectionRecord.__connect`
 deriving DecidableEq, Repr, Inhabited
 
 /-- `err`: a dbapi.Error the dialect does not classify as a disconnect;
@@ -102,6 +103,7 @@ structure DB where
   faults : List (FPoint × FKind) -- armed one-shot faults, consumed at the next matching call
   reset : ResetStyle
   listener : Listener
+  recycle : Option Nat           -- pool_recycle (in clock ticks); none = -1
   engineOpts : List Bool         -- engine-level execution_options registrations, in order:
                                  -- true = isolation_level="AUTOCOMMIT", false = logging_token
 deriving DecidableEq, Repr, Inhabited
@@ -163,18 +165,62 @@ def DB.newRaw (db : DB) : DB :=
                      autocommit := false, follows := false, readUnc := false, finalize := [] },
             nextRid := db.nextRid + 1 }
 
-/-- `Pool.connect()` for a QueuePool used by one thread: `_do_get` takes the head of the
-    queue or creates; `_ConnectionRecord.get_connection` recycles a record whose
-    `starttime` is older than the pool's invalidation time. -/
-def DB.checkout (db : DB) : DB :=
+/-- `_ConnectionRecord.get_connection` for a record that holds connection `r`: must it be
+    recycled?  `elif pool._recycle > -1 and time.time() - self.starttime > pool._recycle`
+    (the clock is read only when pool_recycle is configured), `elif pool._invalidate_time >
+    self.starttime`. -/
+def DB.staleCheck (db : DB) (r : Raw) : DB × Bool :=
+  match db.recycle with
+  | some rc =>
+    let (db, t) := db.tick
+    (db, decide (rc < t - r.born) || decide (db.invalTime > r.born))
+  | none => (db, decide (db.invalTime > r.born))
+
+/-- `Pool.connect()` for a QueuePool used by one thread, up to the point where a new DBAPI
+    connection may be needed: `_do_get` takes the head of the queue (or will create a record);
+    result = (state, connection to hand out if the record's one is usable, a record exists) -/
+def DB.checkoutPre (db : DB) : DB × Option Raw × Bool :=
   match db.idle with
-  | [] => db.newRaw
-  | none :: rest => { db with idle := rest }.newRaw      -- empty record: connect
+  | [] => (db, none, false)
+  | none :: rest => ({ db with idle := rest }, none, true)       -- empty record: connect
   | some r :: rest =>
-    let db := { db with idle := rest }
-    if db.invalTime > r.born then db.newRaw             -- recycle: close + connect
-    else if r.follows then { db with raw := { r with working := db.committed, follows := false } }
-    else { db with raw := r }
+    let (db, st) := ({ db with idle := rest } : DB).staleCheck r
+    if st then (db, none, true)                                   -- recycle: close + connect
+    else (db, some r, true)
+
+/-- hand out the pooled connection `r` -/
+def DB.handOut (db : DB) (r : Raw) : DB :=
+  if r.follows then { db with raw := { r with working := db.committed, follows := false } }
+  else { db with raw := r }
+
+/-- a record is created (`_ConnectionRecord.__init__` connects) and then checked out:
+    `get_connection` runs its age test on the brand-new connection as well — one more clock
+    reading when pool_recycle is configured (and with pool_recycle = 0 the connection is
+    closed and opened once more) -/
+def DB.freshRaw (db : DB) : DB :=
+  let db := db.newRaw
+  let (db', st) := db.staleCheck db.raw
+  if st then db'.newRaw else db'
+
+/-- `Pool.connect()` when the creator works -/
+def DB.checkout (db : DB) : DB :=
+  match db.checkoutPre with
+  | (db, some r, _) => db.handOut r
+  | (db, none, true) => db.newRaw
+  | (db, none, false) => db.freshRaw
+
+/-- `Pool.connect()` with a possibly failing creator (`_ConnectionRecord.__connect` reads the
+    clock, then calls the creator): on failure an existing record goes back to the pool empty
+    (`_checkin_failed`), a record being created is dropped.  -/
+def DB.checkoutF (db : DB) : DB × Option FKind :=
+  match db.checkoutPre with
+  | (db1, none, hasRecord) =>
+    match db1.takeFault .connect with
+    | (some k, db2) =>
+      let db3 := db2.tick.1
+      (if hasRecord then { db3 with idle := db3.idle ++ [none] } else db3, some k)
+    | (none, _) => (db.checkout, none)
+  | _ => (db.checkout, none)
 
 /-- `Pool._invalidate(fairy)`: `if self._invalidate_time < rec.starttime: … = time.time()` -/
 def DB.poolInvalidate (db : DB) : DB :=
@@ -246,9 +292,10 @@ structure Conn where
                            -- references a fairy whose record is invalidated and not checked in
 deriving DecidableEq, Repr, Inhabited
 
-def DB.init (reset : ResetStyle) (listener : Listener := .none) (engineOpts : List Bool := []) : DB :=
+def DB.init (reset : ResetStyle) (listener : Listener := .none) (engineOpts : List Bool := [])
+    (recycle : Option Nat := none) : DB :=
   { committed := [], raw := default, idle := [], clock := 0, invalTime := 0, nextRid := 0,
-    faults := [], reset := reset, listener := listener, engineOpts := engineOpts }
+    faults := [], reset := reset, listener := listener, recycle := recycle, engineOpts := engineOpts }
 
 /-- one `_set_connection_characteristics` call on the held DBAPI connection: `iso` = it sets
     isolation_level "AUTOCOMMIT" (the fake driver commits what is pending when autocommit is
@@ -307,7 +354,16 @@ def andFinally (x : Conn × Res) (g : Conn → Conn) : Conn × Res := (g x.1, x.
 def Conn.revalidate (c : Conn) : Conn × Res :=
   if c.canReconnect && !c.hasDbapi then
     if c.transaction.isSome then (c, .pendingRollback)
-    else ({ c with hasDbapi := true, db := c.db.checkout }, .ok)
+    else
+      -- self._dbapi_connection = self.engine.raw_connection(); a failing connect reaches
+      -- _handle_dbapi_exception in the caller: the Connection is (still) invalidated, so the
+      -- only effect is the class of the error raised
+      match c.db.checkoutF with
+      | (db, none) => ({ c with hasDbapi := true, db := db }, .ok)
+      | (db, some k) =>
+        ({ c with db := db },
+         if k == .kbi then .interrupted
+         else if k == .disc || c.db.listener == .forceDisc then .disconnect else .operational)
   else (c, .resourceClosed)
 
 /-- the `Connection.connection` property -/
